@@ -104,6 +104,17 @@ func vApply(r *Reader, op string, n int) (res vRes) {
 	return
 }
 
+// vSpare returns a copy of b that is a prefix of a larger array (cap > len) whose tail holds
+// foreign octets, the way the collector hands b[:n] of a pooled receive buffer to the reader.
+func vSpare(b []byte) []byte {
+	backing := make([]byte, len(b)+16)
+	copy(backing, b)
+	for i := len(b); i < len(backing); i++ {
+		backing[i] = 0xEE
+	}
+	return backing[:len(b)]
+}
+
 // TestVerifReaderCases: binding A. One test per transition of the TLC state graph.
 func TestVerifReaderCases(t *testing.T) {
 	in, out := os.Getenv("VERIF_CASES"), os.Getenv("VERIF_OUT")
@@ -135,7 +146,7 @@ func TestVerifReaderCases(t *testing.T) {
 			t.Fatal(err)
 		}
 		orig := vBytes(c.Buf)
-		buf := append([]byte{}, orig...)
+		buf := vSpare(orig) // as in the collector: a prefix of a larger receive buffer
 		r := NewReader(buf)
 		if c.Pos > 0 { // shortest path to the state `pos`
 			if _, err := r.Read(c.Pos); err != nil {
@@ -174,6 +185,7 @@ func TestVerifReaderTrace(t *testing.T) {
 		}
 		buf := make([]byte, L)
 		rng.Read(buf)
+		buf = vSpare(buf)
 		enc.Encode(map[string]interface{}{"op": "new", "buf": vInts(buf)})
 		r := NewReader(buf)
 		for i := 0; i < nops; i++ {
